@@ -459,7 +459,7 @@ class Interp:
             if 'env' in ev:
                 # environment faults can be switched off (solo passes); a caller's own writes into arrays it owns are part of
                 # its program and always happen
-                if self.env_enabled or (ev.get('c') is not None and ev['env'] in ('poke', 'perturb', 'perturb_attr')):
+                if self.env_enabled or (ev.get('c') is not None and ev['env'] in ('poke', 'perturb', 'perturb_attr', 'drop')):
                     self.do_env(i, ev)
                 continue
             if any(r not in self.store for r in self.event_refs(ev)):
@@ -568,6 +568,15 @@ class Interp:
                 self.fault('caller_write')
                 if self.hooks is not None and hasattr(self.hooks, 'on_dirty'):
                     self.hooks.on_dirty(self, ev['target'].lstrip('@'))
+        elif kind == 'drop':
+            # the caller lets go of objects it held (their memory, and their id(), may be reused by whatever is allocated next)
+            for t in ev['targets']:
+                self.store.pop(t.lstrip('@'), None)
+                self.meta.pop(t.lstrip('@'), None)
+            if self.hooks is not None and hasattr(self.hooks, 'on_drop'):
+                self.hooks.on_drop(self, [t.lstrip('@') for t in ev['targets']])
+            import gc
+            gc.collect()
         elif kind == 'poke':
             # the caller assigns one element of an array it owns
             tid = ev['target'].lstrip('@')
